@@ -457,6 +457,44 @@ impl<C: BgpConfig + Send> Session<C> {
         self.attributes_mut().set_state(state);
     }
 
+    //--- verification hooks (cfg nlnetlabs_routecore_verif only) --------------
+    /// Feeds an arbitrary event into the transition function.
+    #[cfg(nlnetlabs_routecore_verif)]
+    pub async fn verif_inject(&mut self, event: Event) -> Result<(), Error> {
+        self.handle_event(event).await
+    }
+
+    /// Processes a message as if it had been read from the peer.
+    #[cfg(nlnetlabs_routecore_verif)]
+    pub async fn verif_handle_msg(
+        &mut self, msg: BgpMsg<Bytes>
+    ) -> Result<(), Error> {
+        self.handle_msg(msg).await
+    }
+
+    /// State, connect retry counter, running flags of the connect-retry,
+    /// hold, keepalive and delay-open timers, connection presence.
+    #[cfg(nlnetlabs_routecore_verif)]
+    pub fn verif_snapshot(&self) -> (State, usize, [bool; 4], bool) {
+        (
+            self.state(),
+            self.attributes.verif_connect_retry_counter(),
+            [
+                self.connect_retry_timer.is_running(),
+                self.hold_timer.is_running(),
+                self.keepalive_timer.is_running(),
+                self.delay_open_timer.is_running(),
+            ],
+            self.connection.is_some(),
+        )
+    }
+
+    /// The connection, to reach its framing hooks and session config.
+    #[cfg(nlnetlabs_routecore_verif)]
+    pub fn verif_connection_mut(&mut self) -> Option<&mut Connection> {
+        self.connection.as_mut()
+    }
+
     //--- event functions ----------------------------------------------------
     /// Trigger a ManualStart event.
     pub async fn manual_start(&mut self) {
@@ -1876,6 +1914,26 @@ impl Connection {
 
     pub fn session_config_mut(&mut self) -> &mut SessionConfig {
         &mut self.session_config
+    }
+
+    /// Appends octets to the receive buffer, as a read from the peer would.
+    #[cfg(nlnetlabs_routecore_verif)]
+    pub fn verif_push(&mut self, octets: &[u8]) {
+        self.buffer.extend_from_slice(octets);
+    }
+
+    /// Runs the frame extractor once on what is buffered.
+    #[cfg(nlnetlabs_routecore_verif)]
+    pub fn verif_parse_frame(
+        &mut self
+    ) -> Result<Option<BgpMsg<Bytes>>, ParseError> {
+        self.parse_frame()
+    }
+
+    /// Number of octets received but not yet framed.
+    #[cfg(nlnetlabs_routecore_verif)]
+    pub fn verif_buffered(&self) -> usize {
+        self.buffer.len()
     }
 
     /*
